@@ -47,6 +47,9 @@ def same(a, b):
     return True
 
 
+_LATER = []      # (function, args, first result, label, code): re-run after all later compilations of the chunk
+
+
 def check_record(rec, args, label):
     """python-side checks of one captured compilation; returns (findings, tla_record or None)"""
     findings = []
@@ -85,6 +88,8 @@ def check_record(rec, args, label):
         except Exception as e:
             return ("exc", type(e).__name__)
     r1, r2 = run(fn), run(f2)
+    if len(_LATER) < 600:
+        _LATER.append((fn, run, r1, label, code))
     a3 = [x.copy() if isinstance(x, np.ndarray) else x for x in args]
     try:
         with warnings.catch_warnings():
@@ -128,7 +133,7 @@ def real_chunk(items):
                         pass
                     for rec in IR.drain():
                         n += 1
-                        f, r = check_record(rec, ins, "")
+                        f, r = check_record(rec, ins, "einx.%s(%r, backend=%s)" % (op, DC.desc_of(case), backend))
                         for x in f:
                             x["where"] = "einx.%s(%r, backend=%s)" % (op, DC.desc_of(case), backend)
                             x["code"] = rec["code"]
@@ -174,6 +179,17 @@ def real_chunk(items):
             import traceback
             findings.append({"kind": "machinery", "detail": traceback.format_exc()[-800:], "where": str(it)[:100], "code": ""})
         out.append({"findings": findings, "recs": recs, "n": n})
+    # the function einx keeps (and serves from its cache) must still be the compilation of ITS text after other programs
+    # have been compiled in the same process: re-run every captured function and compare with its own first result
+    late = []
+    for fn, run, r1, label, code in _LATER:
+        r = run(fn)
+        if r[0] != r1[0] or (r1[0] == "ok" and not same(r[1], r1[1])):
+            late.append({"kind": "function-changes-after-later-compilations", "where": label or "compiled function", "code": code,
+                         "detail": "re-running the compiled function after later compilations gives %s, right after its own compilation it gave %s" % (r if r[0] != "ok" else "another value", r1 if r1[0] != "ok" else "a value")})
+    del _LATER[:]
+    if late and out:
+        out[-1]["findings"].extend(late[:5])
     return out
 
 
